@@ -402,7 +402,9 @@ def cubic_minmax(ctx, rule):
         return r, [d for d in it.definitions], dict(roots_seen), it
     D = Rat.sym('DELTA')
     opts = {'ext_hooks': mm_hooks(), 'call_hooks': {'polytools.polyroots01': pr01, 'bezier.polyroots01': pr01},
-            'abstract': {frm.qualname: {'delta'}}}
+            'abstract': {frm.qualname: {'delta'}},
+            # value-directed as well: whatever the local is called, a common positive multiple of the discriminant of B' is kept atomic
+            'abstract_values': {'*': [('delta', disc * k_, D) for k_ in (Fr(1, 36), Fr(1, 9), Fr(1, 4), Fr(1, 12), Fr(1), Fr(4), Fr(9), Fr(36), Fr(1, 144))]}}
 
     cache = {}
 
@@ -417,7 +419,7 @@ def cubic_minmax(ctx, rule):
         for end, nm in ((A[0], 'B(0)'), (A[3], 'B(1)')):
             if not any(c.equals(end) for c in cands):
                 probs.append('%s is not a candidate' % nm)
-        delta_def = [d for d in defs if d[1] == 'delta']
+        delta_def = [d for d in defs if d[1] == 'delta' or d[2] == 'delta']
         if 'poly' in seen:
             # generic path: the polynomial must be the derivative
             p = seen['poly']
